@@ -192,6 +192,25 @@ def r3(ctx, retsets):
                               flow.av_single(o["ret"]) == E_["PFX_ERROR"] and not o["counts"].get("free") for o in fail)
     ctx.check(good, "C18.R3", "del_elem[realloc fails]", "%s:%d" % (fn.relfile, fn.line), "effects %s (expected: element put back at index len, len incremented again, PFX_ERROR)" % [o["counts"] for o in fail],
               key="C18.R3:del")
+    # router-key container: a failed segment allocation leaves the size bookkeeping as it was (the table keeps working with longer chains)
+    fn = pdb.fn("hashlin_grow_step")
+    ctx.touch(fn)
+    HARMLESS = {"tommy_hashlin_struct.low_max", "tommy_hashlin_struct.low_mask"}     # copies of the live values, read only while growing
+
+    def clg(inst, E, st):
+        if inst.op == "call" and inst.callee in ("lrtr_malloc", "lrtr_calloc", "lrtr_realloc"):
+            return [(["=a:fail"], {inst.ref: flow.av_in(0)}), (["=a:ok"], {inst.ref: ("nin", frozenset([0]))})]
+        if inst.op == "store" and vf.root_of(vf.expr(fn, inst["ptr"])) == ("arg", 0):
+            f = vf.store_field(inst) or vf.show(vf.expr(fn, inst["ptr"]))
+            if f not in HARMLESS:
+                return ["write:" + f.split(".")[-1]]
+        return None
+    outs, fl = es.count_effects(fn, pdb, clg, retsets, cap=96)
+    fail = [o for o in outs if o["counts"].get("a") == "fail"]
+    wrote = sorted({k for o in fail for k in o["counts"] if k.startswith("write:")})
+    ctx.check(bool(fail) and not wrote, "C18.R3", "hashlin_grow_step[segment allocation fails]", "%s:%d" % (fn.relfile, fn.line),
+              "fields of the table written on the failure paths: %s (expected none: bucket_bit / bucket_max / bucket_mask / state / split describe "
+              "segments that exist)" % (wrote or "none"), key="C18.R3:hashlin_grow")
     # create_node
     fn = pdb.fn("pfx_table_create_node")
     ctx.touch(fn)
